@@ -26,3 +26,48 @@ contract(CF, "CoordsCollection._calc_sorting_order", props=("C19",),
          params={"self": ("ref", "CoordsCollection")}, result=("ref", "Obj"),
          requires=lambda c: [("2-or-3-dimensional", z3.Or(NCOLS(ROUNDED(T(c.self))) == 2, NCOLS(ROUNDED(T(c.self))) == 3))],
          ensures=sort_ensures)
+
+
+# --- the sorted views: coordinates and weights are permuted by the canonical order (and by nothing else) ---
+NP_TAKE = lambda a, idx: uf("NP_TAKE", Ref, Ref, Ref)(a, idx)
+NP_ARRAY = z3.Function("NP_ARRAY", z3.ArraySort(I, z3.RealSort()), I, Ref)
+
+
+def _canonical(order, a):
+    """order is lexsort of a key sequence whose j-th key is column dims-1-j of a"""
+    d = NCOLS(a)
+    keys = z3.Const("keys!cv", z3.ArraySort(I, Ref))
+    j = z3.Int("j!cv")
+    return lambda mk: z3.Exists([keys], z3.And(mk(LEXSORT(keys, d)),
+                                              z3.ForAll([j], z3.Implies(z3.And(0 <= j, j < d), z3.Select(keys, j) == COL(a, d - 1 - j)))))
+
+
+def sorted_coords_ensures(c):
+    a = ROUNDED(T(c.self))
+    return [("rounded-coordinates-taken-in-canonical-order", _canonical(None, a)(lambda o: T(c.res) == NP_TAKE(a, o)))]
+
+
+contract(CF, "CoordsCollection._sorted_coords", props=("C19",),
+         params={"self": ("ref", "CoordsCollection")}, result=("ref", "Obj"),
+         requires=lambda c: [("2-or-3-dimensional", z3.Or(NCOLS(ROUNDED(T(c.self))) == 2, NCOLS(ROUNDED(T(c.self))) == 3))],
+         ensures=sorted_coords_ensures)
+
+contract(CF, "CoordsCollection.sorted_coords", props=("C19",),
+         params={"self": ("ref", "CoordsCollection")}, result=("ref", "Obj"),
+         requires=lambda c: [("2-or-3-dimensional", z3.Or(NCOLS(ROUNDED(T(c.self))) == 2, NCOLS(ROUNDED(T(c.self))) == 3))],
+         ensures=sorted_coords_ensures)
+
+WF = "pulser-core/pulser/register/weight_maps.py"
+
+
+def sorted_weights_ensures(c):
+    from .limits import W_ARR, W_LEN
+    a = ROUNDED(T(c.self))
+    return [("weights-taken-in-the-canonical-order-of-their-traps",
+             _canonical(None, a)(lambda o: T(c.res) == NP_TAKE(NP_ARRAY(W_ARR(T(c.self)), W_LEN(T(c.self))), o)))]
+
+
+contract(WF, "WeightMap.sorted_weights", props=("C19",),
+         params={"self": ("ref", "WeightMap")}, result=("ref", "Obj"),
+         requires=lambda c: [("2-or-3-dimensional", z3.Or(NCOLS(ROUNDED(T(c.self))) == 2, NCOLS(ROUNDED(T(c.self))) == 3))],
+         ensures=sorted_weights_ensures)
